@@ -414,6 +414,34 @@ def normbody(pid):
                     res.ok({"function": f.path, "pushed": val[-70:], "line": c.line}, nontrivial=True)
                 else:
                     res.fail(Finding(res.rule, "R-NORMBODY/%s/pushed-name-not-a-normal-component" % f.path, "a name is added to the chain that is not the payload of a Component::Normal yielded by Path::components() (%s)" % val[:100], f, c.term["span"]))
+        # a component that is not UTF-8 names nothing: it is refused, never skipped or replaced
+        for bb, c in sorted(v.calls.items()):
+            if not re.search(r"OsStr::to_str$|Path::to_str$", c.name):
+                continue
+            n += 1
+            g_ = guards(ctx, f)
+            none_edges = []
+            for b2, blk2 in enumerate(f.blocks):
+                t2 = blk2["term"]
+                if blk2["cleanup"] or t2["t"] != "switch":
+                    continue
+                vals = [str(x) for x, _ in t2["arms"]] + ["otherwise"]
+                for k2, tgt in enumerate(f.succ(b2)):
+                    if any(re.search(r"to_str\(.*\) is None$", a_) for a_ in g_.describe_all(b2, vals[k2], vals)):
+                        none_edges += v.pg.edge_node(b2, tgt)
+            cont = set()
+            if none_edges:
+                r_ = v.pg.reach(none_edges)
+                for b2, blk2 in enumerate(f.blocks):
+                    if ("t", b2) in r_ and b2 in v.calls and re.search(r"Iterator>::next$|Iterator::next$", v.calls[b2].name):
+                        cont.add(b2)
+                    for i2, st2 in enumerate(blk2["stmts"]):
+                        if ("s", b2, i2) in r_ and st2["s"] == "assign" and st2["place"]["local"] == 0 and not st2["place"]["proj"] and st2["rv"]["r"] == "aggregate" and st2["rv"].get("variant") == "Ok":
+                            cont.add(b2)
+            if not none_edges or cont:
+                res.fail(Finding(res.rule, "R-NORMBODY/%s/non-utf8-component-not-refused" % f.path, "a path component that is not UTF-8 (to_str() is None) does not end the normaliser with a refusal: the component is skipped, so the path names its parent and a call that must be refused with InvalidInput acts on another object", f, c.term["span"]))
+            else:
+                res.ok({"function": f.path, "to_str_line": c.line, "none_outcome": "refusal only"}, nontrivial=True)
         res.floor("Ok payloads and pushes of the normaliser", n, ctx.table("floors").get("normbody_sites", 0))
         return res
     return run
@@ -517,5 +545,83 @@ def oneorder(pid):
                     else:
                         res.ok({"function": f.path, "line": t["span"]["line"], "ordering": m.group(1)[:60]}, nontrivial=True)
         res.floor("ordering switches in the directory", n, ctx.table("floors").get("oneorder_sites", 0))
+        return res
+    return run
+
+
+_NARROWING = re.compile(r"\b(skip|take|step_by|filter|skip_while|take_while|nth|split_at|split_first|split_last|chunks|windows)\b|Index<I>::index\(|get\(")
+
+
+def allvalid(pid):
+    """R-ALLVALID: the compound creation `create_storage_all` refuses a path with an invalid component before it creates
+    anything only if *every* component of the normalised chain went through validate_name before the first storage is
+    created: a whole-collection iteration of the chain (a `for` over `names.iter()`, or `iter().try_for_each / all`
+    with a closure) whose every round validates its item and whose refusal is propagated, ahead of every effectful
+    call.  An index range counts only in the plain form `0..names.len()` with `names[i]`."""
+    def run(ctx):
+        from cfg import block_dominators, natural_loops
+        res = RuleResult("R-ALLVALID(%s)" % pid, "create_storage_all validates every component of the path (a whole-collection iteration of the name chain, refusal propagated) before the first call that can change the file")
+        f = ctx.fx.fns.get("CompoundFile::<F>::create_storage_all_with_path")
+        if f is None:
+            res.gone.append("CompoundFile::<F>::create_storage_all_with_path")
+            return res
+        pr = Prov(f)
+        v = view(ctx, f)
+        dom = block_dominators(f)
+        loops = natural_loops(f)
+        effect_bbs = []
+        for c in ctx.cg.calls[f.path]:
+            if "mutates_state" in ctx.cg.call_effects(c):
+                effect_bbs.append(c.bb)
+        propagated = [pr.operand(cl.term["args"][0]) for bb, cl in v.calls.items() if cl.name.endswith("::branch") and cl.term["args"]]
+        full = []
+
+        def whole(s):
+            """s describes an element stream over the whole chain."""
+            if "name_chain_from_path(" not in s:
+                return False
+            m = re.search(r"Range::Range\((.*)\)", s)
+            if m or "RangeInclusive" in s:
+                return bool(re.search(r"Index(<I>)?::index\(ok\(path::name_chain_from_path\([^()]*\)\),(ok|some)\(Range<A>>::next\((IntoIterator::into_iter\()?Range::Range\(const:0,len\(ok\(path::name_chain_from_path\([^()]*\)\)\)\)\)?\)\)\)$", s))
+            return ("<impl [T]>::iter(" in s or "IntoIterator::into_iter(" in s) and not _NARROWING.search(s)
+
+        for bb, cl in sorted(v.calls.items()):
+            args = cl.term["args"]
+            if cl.name == VALIDATE and args:
+                a = pr.operand(args[0])
+                if not (re.match(r"^(ok|some)\(.*Iterator::next\(|^(deref\()?Index", a) and whole(a)):
+                    continue
+                if not any("validate_name(" in p for p in propagated):
+                    continue
+                # the loop this validation sits in: its header dominates every effect, which lies outside the body,
+                # and every way back to the header passes the validation
+                mine = [(h, body, back) for (h, body, back) in loops if bb in body]
+                if not mine:
+                    continue
+                h, body, back = min(mine, key=lambda x: len(x[1]))
+                if all((h in dom.get(e, ())) and e not in body for e in effect_bbs) and all(bb in dom.get(t, ()) for (t, _h) in back):
+                    full.append({"validation_line": cl.line, "form": "loop over the whole chain", "item": a[:70]})
+            elif cl.closures and args:
+                recv = pr.operand(args[0])
+                if not whole(recv) or "Range" in recv:
+                    continue
+                for g in cl.closures:
+                    gv = view(ctx, g)
+                    gp = Prov(g)
+                    for gbb, gcl in gv.calls.items():
+                        if gcl.name == VALIDATE and gcl.term["args"] and re.match(r"^(deref\()*param:\w+\)*$", gp.operand(gcl.term["args"][0])):
+                            short = cl.name.split("::")[-1]
+                            if short in ("try_for_each", "all", "try_fold") and any(short + "(" in p for p in propagated) or short == "all":
+                                if all(bb in dom.get(e, ()) and e != bb for e in effect_bbs):
+                                    full.append({"validation_line": gcl.line, "form": "closure over the whole chain via " + short, "receiver": recv[:70]})
+        n_eff = len(effect_bbs)
+        if n_eff == 0:
+            res.ok({"function": f.path, "effects": 0})
+        elif full:
+            res.ok({"function": f.path, "effectful_calls": n_eff, "validated_by": full[0]}, nontrivial=True)
+        else:
+            sp = f.blocks[effect_bbs[0]]["term"]["span"]
+            res.fail(Finding(res.rule, "R-ALLVALID/%s/not-every-component-validated-first" % f.path, "no whole-collection validation of the path's components precedes the first effectful call (line %d): a path whose parents are missing and whose later component is invalid is refused with InvalidInput after some parents were created" % sp["line"], f, sp))
+        res.floor("effectful calls in create_storage_all", n_eff, ctx.table("floors").get("allvalid_effects", 0))
         return res
     return run
